@@ -1,8 +1,26 @@
 """Execution log shared by the test command library.  It lives outside the library package on purpose:
 Program.load_commands re-executes library modules on every Program construction, which would duplicate any
 module-level state kept inside them."""
-LOG = []
 
 
-def reset():
+class ExecutionBudgetExceeded(RuntimeError):
+    """The test commands of one case were entered far more often than the case has commands: something re-executes
+    them over and over.  Raised from inside execute() so that a runaway evaluation ends instead of running for hours."""
+
+
+class _Log(list):
+    cap = None
+
+    def append(self, item):
+        list.append(self, item)
+        if self.cap is not None and len(self) > self.cap:
+            cap, self.cap = self.cap, None  # raise once; the check looks at the log afterwards
+            raise ExecutionBudgetExceeded("more than %d log entries" % cap)
+
+
+LOG = _Log()
+
+
+def reset(cap=None):
     del LOG[:]
+    LOG.cap = cap
